@@ -158,6 +158,13 @@ class Scenario:
             deliver(self.sess, self.face, enc.make_network_nack(last['wire'], (0, 50, 100, 150)[(self.nacks + last['t']) % 4]))
         elif act == 'RespLost':
             self.sess.loop.advance_to(self.sess.loop.time() + self.lifetime / 1000.0)
+        elif act == 'RespDataLate':
+            # the Data is handed over in the instant the lifetime runs out, before the loop has served the timer
+            # - alternately in the same loop iteration as the timer handle (the packet's callback first) and an iteration earlier
+            self.sess.loop.set_time(self.sess.loop.time() + self.lifetime / 1000.0)
+            self.lates = getattr(self, 'lates', 0) + 1
+            deliver(self.sess, self.face, self.data_for(last['t']), timers_now=(self.lates % 2 == 1))
+            self.sess.loop.settle()
         else:
             raise ValueError(act)
 
@@ -420,6 +427,8 @@ def run(ctx):
                     return 'RespNack'
                 if x < ploss + pn + pv:
                     return 'RespVFail'
+                if x < ploss + pn + pv + 0.12:
+                    return 'RespDataLate'
                 return 'RespData'
             ev, bg = record(cfg, chooser)
             if bg:
@@ -442,7 +451,8 @@ def run(ctx):
                 if not exists:
                     return 'RespLost'
                 x = rng.random()
-                return 'RespLost' if x < ploss else 'RespNack' if x < ploss + 0.03 else 'RespVFail' if x < ploss + 0.06 else 'RespData'
+                return 'RespLost' if x < ploss else 'RespNack' if x < ploss + 0.03 else 'RespVFail' if x < ploss + 0.06 else \
+                    'RespDataLate' if x < ploss + 0.16 else 'RespData'
             evs2, problem = record_pair(cfg, chooser2)
             npairs += 1
             if problem:
